@@ -525,3 +525,196 @@ def check_c10(run):
                       "derive: every Set/Clear derivation sequence up to the depth over the six named sets and their derivatives, every registry entry fingerprinted after every step; "
                       "codec: every string up to the bound over {%, hex digit, non-hex letter, member, non-member, 2-/3-/4-byte scalar, DEL} x 10 named and derived sets - the laws are "
                       "TLC invariants of the specification and the encodings/decodings are replayed byte-exactly")
+
+
+# --------------------------------------------------------------------------------------------
+# C14 - concurrent read-only use
+# --------------------------------------------------------------------------------------------
+def check_c14(run):
+    run.build_harness()
+    race = run.build_harness(race=True)
+    q = run.tier == "quick"
+    # design: all interleavings of the access programs
+    out, st = run.tlc("Conc", cfg="Conc_strict.cfg", timeout=300)
+    p = subprocess.run(run.tlc_cmd("Conc", "Conc_lazy.cfg"), cwd=run.scratch, capture_output=True, text=True, timeout=300)
+    if "Invariant NoRace is violated" not in p.stdout:
+        raise Infra("Conc_lazy.cfg: TLC no longer finds the resolve || resolve race with the LazyInitOnClone deviation (vacuous model?)")
+    run.samples.append("[design] Conc.tla: NoRace, TablesFrozen, ResultsAsAlone hold on all %d states of 3 goroutines x {resolve, getter, parse, canon}; "
+                       "with the LazyInitOnClone deviation TLC returns the resolve || resolve counterexample" % st["distinct"])
+    extra = []
+    if not q:
+        fam = [f for f in c01_families(run) if f.name == "struct"][0]
+        fam.maxlen, fam.bases, fam.nobase = 3, [], True
+        mod = fam.write(run.scratch)
+        cmd = run.tlc_cmd(mod, mod + ".cfg")
+        pf = os.path.join(run.scratch, "conc_inputs.txt")
+        with open(pf, "w") as f:
+            subprocess.run(cmd, cwd=run.scratch, stdout=f, stderr=subprocess.STDOUT, timeout=600)
+        extra = ["--inputs", pf]
+    nrace = 0
+    for i in range(2 if q else 6):
+        ws = os.path.join(run.scratch, "ws%d.ndjson" % i)
+        env = dict(os.environ, GORACE="exitcode=66 halt_on_error=0 history_size=2")
+        try:
+            p = subprocess.run([race, "conc", "--seed", str(run.seed * 100 + i), "--out", ws, "--goroutines", "8" if q else "16", "--rounds", "24" if q else "60"] + (extra if i == 0 else []),
+                               cwd=run.scratch, capture_output=True, text=True, timeout=900, env=env)
+        except subprocess.TimeoutExpired:
+            raise Infra("conc driver timeout")
+        m = None
+        for line in p.stdout.splitlines():
+            if line.startswith("CONC ws_events="):
+                m = line
+        if "DATA RACE" in p.stderr:
+            nrace += 1
+            if nrace <= 3:
+                rep = p.stderr[p.stderr.index("WARNING: DATA RACE"):][:6000]
+                run.violation("the Go race detector reports a data race between concurrent read-only calls: " + " | ".join(l.strip() for l in rep.splitlines()[1:8]),
+                              {"property": "C14", "kind": "race", "seed": run.seed * 100 + i, "report": rep}, "race")
+        elif p.returncode != 0 or m is None:
+            raise Infra("conc driver failed (exit %d): %s %s" % (p.returncode, p.stdout[-1500:], p.stderr[-1500:]))
+        if "CONC-MISMATCH" in p.stdout or "CONC-TABLES-CHANGED" in p.stdout:
+            run.violation("a concurrent call returned something else than when run alone: " + p.stdout[:600], {"property": "C14", "kind": "result", "seed": run.seed * 100 + i, "output": p.stdout[:5000]}, "res")
+        if m:
+            import re as _re
+            mm = _re.search(r"ws_events=(\d+) concurrent_calls=(\d+)", m)
+            run.executions += int(mm.group(2))
+            run.distinct += int(mm.group(1))
+            run.coverage_notes["concurrent_calls_under_race_detector"] = run.coverage_notes.get("concurrent_calls_under_race_detector", 0) + int(mm.group(2))
+        if os.path.exists(ws):
+            bad = run.validate_events([ws])
+            n = sum(1 for _ in open(ws))
+            run.validated += n
+            absorb_events(run, [(dict(ev, **{"in": ev.get("in", [])}), v) for ev, v in bad], "ws")
+    run.samples.append("write-set event: {call: resolve, base: http://example.com/a/b?x=1#f, in: ../c, writes: []}")
+    run.assumptions += ["SearchParams() hands out a mutable handle and is not counted as a read (weaker reading)",
+                        "the race detector only sees the paths the drivers execute; thorough drives every input of the struct family through the concurrent drivers"]
+    return run.finish("model_checking", "Conc.tla explores all interleavings of the shared-memory access programs of the read-only calls; binding: (1) write-set events recorded around every "
+                      "read-only call of every driver (shared base record incl. the lazily created parameter list, parser options, package tables - via the snapshot hook) validated by TLC "
+                      "against WritesOf(call); (2) goroutine drivers under the Go race detector with results compared with the sequential run; distinct = write-set events")
+
+
+# --------------------------------------------------------------------------------------------
+# C20 - cost grows at most linearly
+# --------------------------------------------------------------------------------------------
+COST_THRESHOLD = 9.0     # linear families measure 3.8-6.1, quadratic ones 15.6-16.1 (DESIGN.md section 3)
+
+
+def pump_families(run):
+    q = run.tier == "quick"
+    d = run.scratch
+    with open(os.path.join(d, "P_pump.tla"), "w") as f:
+        f.write("---- MODULE P_pump ----\nEXTENDS MC_Pump\n")
+        f.write("F_PA == %s\nF_UA == %s\n" % (tla_cps(":/\\?#@.[a1%"), tla_cps(":/\\?#@.[]a1%2& =")))
+        f.write("F_Schemes == %s\n" % tla_seqs(["", "http:", "file:", "x:"]))
+        f.write("F_Bases == %s\n====\n" % tla_seqs(["http://u:p@h:8/a/b?q#f", "file:///C:/d/e"] if not q else ["http://u:p@h:8/a/b?q#f"]))
+    with open(os.path.join(d, "P_pump.cfg"), "w") as f:
+        f.write("CONSTANTS\n PAlphabet <- F_PA\n PMax = %d\n UAlphabet <- F_UA\n UMax = %d\n Schemes <- F_Schemes\n BaseStrs <- F_Bases\n"
+                "INIT Init\nNEXT Next\nINVARIANT Emit\nINVARIANT PumpWorkLinear\nCHECK_DEADLOCK FALSE\n" % (2 if q else 3, 1 if q else 2))
+    out, st = run.tlc("P_pump", cfg="P_pump.cfg", timeout=900)
+    reps = {}
+    npumps = 0
+    for line in out.splitlines():
+        if not line.startswith('"'):
+            continue
+        try:
+            o = json.loads(json.loads(line))
+        except ValueError:
+            continue
+        if o.get("t") != "pump":
+            continue
+        npumps += 1
+        key = (json.dumps(o["ctl"], sort_keys=True), tuple(o["u"]), bool(o["b"]))
+        if key not in reps or len(o["p"]) < len(reps[key]["p"]):
+            reps[key] = o
+    return list(reps.values()), npumps, st
+
+
+def tla_cps(s):
+    from .core import tla_set_of_cps
+    return tla_set_of_cps(s)
+
+
+def tla_seqs(ss):
+    from .core import tla_set_of_seqs
+    return tla_set_of_seqs(ss)
+
+
+def check_c20(run):
+    from .core import cps
+    run.build_harness()
+    q = run.tier == "quick"
+    # design half: the algorithm is linear (work model), on the struct family and on every pump
+    fam = [f for f in c01_families(run) if f.name == "struct"][0]
+    fam.maxlen = 3 if q else 4
+    fam.invariants.append("WorkBound")
+    mod = fam.write(run.scratch, emit=False)
+    run.tlc(mod, cfg=mod + ".cfg", timeout=600)
+    pumps, npumps, st = pump_families(run)
+    run.samples.append("[design] WorkBound (work <= 4*len+8) holds on every state of the struct family; %d pumps (cycles of the control-state graph) found, %d distinct (control state, unit) classes" % (npumps, len(pumps)))
+    fams = []
+    suffixes = ["", "@h/", "/x?q#f", "]/"]
+    for i, o in enumerate(pumps):
+        for sfx in suffixes if not q else suffixes[:3]:
+            fams.append({"name": "pump:%s|%s|%s%s" % (from_cps(o["p"]), from_cps(o["u"]), sfx, " base" if o["b"] else ""), "prefix": o["p"], "unit": o["u"], "suffix": cps(sfx),
+                         "base": o["b"][0] if o["b"] else [], "op": "parse"})
+    # families named by the property text, and API-level ones
+    named = [("many-at", "http://", "@", "h/"), ("long-user", "http://", "u", "@h/"), ("long-password", "http://u:", "p", "@h/"), ("long-opaque-host", "x://", "h", "/"),
+             ("long-domain", "http://", "a.", "b/"), ("many-segments", "http://h/", "a/", ""), ("many-slashes", "http://h/", "/", ""), ("dot-segments", "http://h/", "a/../", ""),
+             ("single-dots", "http://h/", "./", ""), ("backslashes", "http://h/", "\\", ""), ("long-query", "http://h/?", "a", ""), ("long-fragment", "http://h/#", "a", ""),
+             ("many-params", "http://h/?", "a=b&", ""), ("long-opaque-path", "x:", "a", ""), ("pct-path", "http://h/", "%41", ""), ("nonascii-path", "http://h/", "\u00e9", ""),
+             ("long-scheme", "", "a", "://h/"), ("spaces-lead", "", " ", "http://h/"), ("tabs", "http://h/", "\t", "a"), ("port-digits", "http://h:", "0", "1/"),
+             ("ipv4-parts", "http://", "1.", "1/"), ("ipv6-colons", "http://[", "1:", "1]/"), ("file-drive", "file:///", "C|/", ""), ("many-hashes", "http://h/#", "#", ""),
+             ("many-questions", "http://h/?", "?", ""), ("nonspecial-segments", "x://h/", "a/", ""), ("relative-dots", "", "../", "x")]
+    for name, p, u, s in named:
+        fams.append({"name": name, "prefix": cps(p), "unit": cps(u), "suffix": cps(s), "base": cps("http://b/c/d") if name == "relative-dots" else [], "op": "parse"})
+    for name, p, u, s in [("sp-many-params", "http://h/?", "a=b&", ""), ("sp-long-value", "http://h/?a=", "v", "")]:
+        fams.append({"name": name, "prefix": cps(p), "unit": cps(u), "suffix": cps(s), "base": [], "op": "searchparams"})
+    for name, u in [("set-plain", "a"), ("set-slashes", "a/"), ("set-at", "@"), ("set-pct", "%41"), ("set-amp", "a=b&")]:
+        fams.append({"name": name, "prefix": [], "unit": cps(u), "suffix": [], "base": [], "op": "setters"})
+    for prof in ("WhatWg", "WhatWgSortQuery", "GoogleSafeBrowsing", "Semantic"):
+        for name, p, u, s in [("segments", "http://h/", "a/", ""), ("params", "http://h/?", "b=a&", ""), ("nested-escapes", "http://h/", "%2541", ""), ("slashes", "http://h/", "/", "")]:
+            fams.append({"name": "canon-%s-%s" % (prof, name), "prefix": cps(p), "unit": cps(u), "suffix": cps(s), "base": [], "op": "canon:" + prof})
+    ff = os.path.join(run.scratch, "cost_families.json")
+    json.dump(fams, open(ff, "w"))
+    outp = os.path.join(run.scratch, "cost.json")
+    try:
+        p = subprocess.run([run.vh, "cost", "--families", ff, "--out", outp, "--n", "512,2048" if q else "512,2048,8192"], cwd=run.scratch, capture_output=True, text=True, timeout=1500)
+    except subprocess.TimeoutExpired:
+        raise Infra("cost driver timeout")
+    if p.returncode != 0:
+        raise Infra("cost driver failed: %s %s" % (p.stdout[-1000:], p.stderr[-2000:]))
+    res = json.load(open(outp))
+    worst = {}
+    for r in res:
+        run.executions += 2
+        if r["err"].startswith("panic"):
+            run.violation("panic while measuring family %s: %s" % (r["name"], r["err"]), {"property": "C20", "kind": "panic", "result": r}, "panic")
+            continue
+        ratio = max(r["ratio_bytes"], r["ratio_mallocs"])
+        w = worst.get(r["name"])
+        if w is None or ratio > max(w["ratio_bytes"], w["ratio_mallocs"]):
+            worst[r["name"]] = r
+    over = [r for r in worst.values() if max(r["ratio_bytes"], r["ratio_mallocs"]) > COST_THRESHOLD]
+    seen_known = run.__dict__.setdefault("_seen_known", set())
+    for r in sorted(over, key=lambda r: -max(r["ratio_bytes"], r["ratio_mallocs"])):
+        kf = findings.match(run.prop, {"what": "cost", "result": r})
+        if kf:
+            if kf["id"] not in seen_known:
+                seen_known.add(kf["id"])
+                run.known.append("%s: %s [family %s: bytes x%.1f]" % (kf["id"], kf["summary"], r["name"], r["ratio_bytes"]))
+            continue
+        if len(run.violations) < 12:
+            run.violation("family %s (op %s): going from n=%d to 4n multiplies allocated bytes by %.1f and allocations by %.1f (linear is ~4, threshold %.0f): %d -> %d bytes"
+                          % (r["name"], r["op"], r["n"], r["ratio_bytes"], r["ratio_mallocs"], COST_THRESHOLD, r["bytes"][0], r["bytes"][1]),
+                          {"property": "C20", "kind": "growth", "family": [f for f in fams if f["name"] == r["name"]][0], "result": r})
+    run.distinct = len(worst)
+    run.coverage_notes["families_measured"] = len(worst)
+    run.coverage_notes["max_ratio_bytes"] = round(max(r["ratio_bytes"] for r in worst.values()), 2)
+    run.coverage_notes["ratios_sample"] = {r["name"]: [round(r["ratio_bytes"], 2), round(r["ratio_mallocs"], 2)] for r in list(worst.values())[:25]}
+    run.samples += ["family %s: bytes x%.2f, mallocs x%.2f from n=%d to 4n" % (r["name"], r["ratio_bytes"], r["ratio_mallocs"], r["n"]) for r in list(worst.values())[:6]]
+    run.exhaustive = False
+    run.assumptions += ["growth is measured between n and 4n for n in {512, 2048[, 8192]} as TotalAlloc and Mallocs deltas (deterministic, single goroutine, GC off); a ratio above 9 is a violation "
+                        "(linear families measure about 4-6, quadratic ones about 16)", "CPU work that allocates nothing is only covered by the specification's work model, not measured"]
+    return run.finish("exploration", "design half by TLC: the work model of the specification's parser is linear (WorkBound on every state; per-pump increment bounded); measured half: every "
+                      "(control state, unit) cycle of the parser's state graph found by TLC (spec/MC_Pump.tla) x suffixes, plus the families the property names and API-level ones "
+                      "(setters, SearchParams, four profiles), each measured at n and 4n; distinct_nontrivial = families measured")
